@@ -9,6 +9,7 @@ import (
 	"regexp"
 	"strconv"
 	"strings"
+	"unicode/utf8"
 )
 
 var (
@@ -80,6 +81,10 @@ func Parse(in *bytes.Buffer) (defs []*RouteDef, err error) {
 		switch {
 		case reComment.MatchString(result) || reBlankLine.MatchString(result):
 			continue
+		case !utf8.ValidString(result):
+			// names, hosts, paths and targets label the metrics of the
+			// route, and not every metrics library takes any bytes
+			err = errors.New("invalid UTF-8")
 		case reRouteAdd.MatchString(result):
 			def, err = parseRouteAdd(result)
 		case reRouteDel.MatchString(result):
